@@ -899,9 +899,10 @@ impl Session {
             return Ok(());
         }
 
-        // Flush buffer if any
+        // Flush buffer if any. The buffer lock is held until this frame has been written, so that no other task's
+        // frame can reach the wire between taking the pending frames (the Settings frame first of all) and writing them
+        let mut buf = self.buffer.lock().await;
         {
-            let mut buf = self.buffer.lock().await;
             if !buf.is_empty() {
                 let buffered_len = buf.len();
                 tracing::debug!(
@@ -947,7 +948,9 @@ impl Session {
         }
 
         // Write with padding if enabled
-        self.write_with_padding(buffer).await
+        let result = self.write_with_padding(buffer).await;
+        drop(buf);
+        result
     }
 
     /// Write buffer to connection with padding applied
